@@ -4,13 +4,17 @@
 use crate::report::CaseCtx;
 
 pub mod common;
+pub mod c01;
 pub mod c02;
+pub mod c07;
 
 pub type Monitor = fn(&mut CaseCtx);
 
 pub fn lookup(id: &str) -> Option<Monitor> {
     Some(match id {
+        "C01" => c01::case,
         "C02" => c02::case,
+        "C07" => c07::case,
         _ => return None,
     })
 }
